@@ -9,7 +9,16 @@ RULE = ("each case = one synthetic in-memory dataset (1-3 instruments, 1-12 / 13
         "Every 4th case serves its dataset (3-12 Items + markers) through the harness's own BacktestMarketData whose stream sleeps 0 / 100 / 700 / 3000 ms of tokio time before every event "
         "(total virtual duration 0 - 40 s) on a paused, auto-advancing current-thread runtime (`data_slow`); model and spec treat it as `data` (pacing = scheduling). "
         "The committed corpus (corpus/C20/paced.ops, corpus/C20/fills_lost.ops, corpus/C20/markers.ops: markers at the head / middle / tail, marker-only dataset) runs first; its 4000-event case makes the known finding show on practically every run "
-        "(alone on a current-thread runtime is always flat, 2 backtests on 4 workers see the first order's fill). A case is distinct by the SHA-1 of its op lines and non-trivial when the observation blocks differ")
+        "(alone on a current-thread runtime is always flat, 2 backtests on 4 workers see the first order's fill). "
+        "LONG datasets (`longdata n k rp ro pm tm`: n stream events given by a formula that harness and Lean driver both compute - Reconnecting marker iff rp>0 and pos%rp==ro, else trade Item pos on "
+        "instrument (pos+pos/3)%k at price 50+50*inst+pos%pm, Sell iff pos%3==1, exchange time 1+pos*tm ms; 2-3 instruments; markers none / every 7th / 64th / 1000th / on the multiples of 4096 / before the multiples of 1024): "
+        "every run adds cases L<n> with n = 8193, 20000 and one of {1,2,1023,1024,1025,4095,4097,8191,8192,16385,65537} in the quick tier and ALL of {1,2,1023,1024,1025,4095,4097,8191,8192,8193,16385,20000,65537} in the thorough tier, "
+        "1-2 plans of 3-6 market orders triggered on the first / middle / last Item and within 2 Items of the block boundaries 1024 / 4096 / 8192 / 16384 / 65536, each `run 1 w` (alone, w in {0,1,4}) and `run m w` with m in 2..4 concurrent "
+        "backtests over the same shared data (w in {1,4,8}; thorough also w = 0); corpus/C20/long_dataset.ops holds three of them (20000, 20000 with markers ON the boundaries, 8193). `run` then prints DIGESTS instead of id lists: "
+        "`lseen b n= items= R= order= dups= skipped= last= h=` (stream events / Items / markers processed, `ok` or the first index at which the processed stream differs from the dataset, Items behind the dataset cursor or surplus markers, "
+        "positions jumped over or never reached, last position reached, rolling hash of the CONTENT - id, instrument, price, side, exchange time - of everything processed), `linst b j n= h= px=` (per instrument: Items, hash of their ids, last price), "
+        "`lreqs b ...` (the requests, with the prices read: an event fed twice or dropped shifts the Item count and with it every later request), `own`, `alone` as before. "
+        "A case is distinct by the SHA-1 of its op lines and non-trivial when the observation blocks differ")
 ASSUMPTIONS = [
     "MarketDataInMemory datasets of trade Items and Reconnecting markers with at least one Item (MarketDataInMemory::new panics otherwise; harness, model and spec all report `panic`); one mock exchange, zero fees, latency_ms = 0",
     "trading enabled from the start and never disabled; no Command / TradingStateUpdate is sent during a backtest",
@@ -41,6 +50,11 @@ LEVEL_TEXT = ("Proof (partial by nature). Lean theorems (lean/BarterModel/Props/
 LEVEL_NOTE = ("Trusted: Lean kernel; axioms propext/Classical.choice/Quot.sound only; the hand-written model (execution manager + mock exchange + response sleeps merged into one step whose outputs may be "
               "delivered in any order); harness (recording GlobalData/InstrumentDataState, plan strategy writing to a per-backtest sink, synchronous replay of the observed feed through a fresh real Engine for `own`), "
               "driver, orchestrator. Observations that depend on the tokio schedule are compared as the model's set of possible values ({0|1}); the spec demands 1. Fairness/termination not proved. "
+              "Long datasets (1 - 65537 events, formula-defined, around and beyond powers of two / block sizes) are observed through digests computed by the harness from the engine's own log (dataset cursor, first differing index, content hash); "
+              "the model side folds a digesting engine over the formula (long_digest_refines_recording: it is the digest of what the list-recording engine records; long_digest_schedule_independent: under every schedule; "
+              "long_digest_of_dataset / long_digest_ok_iff_dataset: the digest is clean exactly when the processed stream is the dataset), the spec states n / order=ok / dups=0 / skipped=0 / hash / requests from the op alone. "
+              "The theorems never bound the dataset length (ds : List mu arbitrary); the fills / positions / balances / PnL of a trading strategy stay schedule dependent on long datasets too (same known finding), so what pins the "
+              "summary there is `lreqs` (what the strategy decided, at which prices) + `own` + `alone`. "
               "Honesty notes (independent review C20-1/2): `isolation` is true by construction of the product system (a list-update lemma over N machines that share nothing), so its content is the "
               "assumption that the Rust backtests share nothing mutable, which only the correspondence run probes; and a backtest whose engine stops on a fatal error makes shutdown_after_backtest panic "
               "(`Engine cannot drop Feed receiver`), which unwinds try_join_all and aborts the whole run_backtests batch - isolation is broken in the code there, not in the model (not in the corpus either).")
@@ -68,6 +82,22 @@ def signature(ops, k, key, impl_line, spec_line):
         return "clause=alone/strategy=" + _strategy_class(ops, k, impl_line if impl_line != "<missing>" else spec_line)
     if key in ("seen", "inst"):
         return "clause=consumes_all/" + key
+    if key in ("lseen", "linst", "lreqs"):
+        # long dataset (`longdata`): which figure of the digest is off
+        def kvs(line):
+            return dict(t.split("=", 1) for t in line.split()[2:] if "=" in t)
+        if key == "lseen":
+            a, b = kvs(impl_line), kvs(spec_line)
+            if impl_line == "<missing>" or not a:
+                return "clause=consumes_all/long_dataset/missing"
+            if a.get("dups") != b.get("dups"):
+                return "clause=consumes_all/long_dataset/duplicated"
+            if a.get("skipped") != b.get("skipped") or a.get("n") != b.get("n"):
+                return "clause=consumes_all/long_dataset/skipped"
+            if a.get("order") != b.get("order"):
+                return "clause=consumes_all/long_dataset/order"
+            return "clause=consumes_all/long_dataset/content"
+        return "clause=consumes_all/long_dataset/" + key
     if key == "own":
         return "clause=summary_own_engine"
     return "clause=" + key
